@@ -352,3 +352,105 @@ Definition concurrent_run (relay : bool) (msgs : list msg) (sched : list N) : li
 
 Definition project (i : N) (g : list (N * event)) : trace :=
   map snd (filter (fun p => fst p =? i) g).
+
+(* ------------------------------------------------ the SMTP session in front of
+   the hand-off: how the envelope that is handed to the queue comes about.
+   Mirrors slimta/smtp/server.py Server._command_EHLO/_HELO/_RSET/_MAIL/_RCPT/
+   _DATA/_get_message_data (the flags have_mailfrom / have_rcptto and the 503
+   answers) together with slimta/edge/smtp.py SmtpSession.EHLO/HELO/RSET/MAIL/
+   RCPT/DATA/HAVE_DATA (self.envelope).  A validator class may change the reply
+   of MAIL, RCPT, DATA, of the received data (handle_have_data) and of
+   EHLO/HELO; `v` below is the code it leaves in the reply (the default when it
+   does nothing).  Recipients are numbers.  Not modelled: close codes 221/421,
+   STARTTLS/AUTH, syntax errors, MessageTooBig (C07/C08/C09). *)
+Inductive scmd : Type :=
+| SEhlo (v : N)                  (* EHLO; v = 250 unless the validator refuses *)
+| SHelo (v : N)
+| SRset
+| SMail (v : N)                  (* MAIL FROM:<sender>; v = 250 = accepted *)
+| SRcpt (a : N) (v : N)          (* RCPT TO:<a> *)
+| SData (v : N) (hv : N) (q : N) (* DATA: v = 354 = go ahead; hv = code after handle_have_data
+                                    (250 = hand the envelope to the queue); q = the code the
+                                    hand-off produces (smtp_reply_of the results) *)
+| SNoop.
+
+Record sstate := mkS { s_helo : bool;            (* Server.ehlo_as set *)
+                       s_mail : bool;            (* Server.have_mailfrom *)
+                       s_rcpt : bool;            (* Server.have_rcptto *)
+                       s_env : option (list N) } (* SmtpSession.envelope: its recipients *).
+
+Inductive sout : Type :=
+| OReply (c : N)
+| OHandoff (rcpts : list N).     (* self.handoff(self.envelope) *)
+
+Definition s_init : sstate := mkS false false false None.
+
+Definition sstep (s : sstate) (c : scmd) : sstate * list sout :=
+  match c with
+  | SEhlo v | SHelo v =>
+      if v =? 250 then (mkS true false false None, [OReply v])
+      else (s, [OReply v])
+  | SRset => (mkS (s_helo s) false false None, [OReply 250])
+  | SNoop => (s, [OReply 250])
+  | SMail v =>
+      if negb (s_helo s) then (s, [OReply 503])
+      else if s_mail s then (s, [OReply 503])
+      else if v =? 250 then (mkS (s_helo s) true (s_rcpt s) (Some []), [OReply v])
+      else (s, [OReply v])
+  | SRcpt a v =>
+      if negb (s_mail s) then (s, [OReply 503])
+      else if v =? 250 then
+        (mkS (s_helo s) (s_mail s) true
+             (match s_env s with Some l => Some (l ++ [a]) | None => None end), [OReply v])
+      else (s, [OReply v])
+  | SData v hv q =>
+      if negb (s_mail s) || negb (s_rcpt s) then (s, [OReply 503])
+      else if negb (v =? 354) then (s, [OReply v])      (* refused: the transaction stays open *)
+      else if negb (hv =? 250) then
+        (mkS (s_helo s) false false None, [OReply v; OReply hv])
+      else
+        (mkS (s_helo s) false false None,
+         [OReply v;
+          OHandoff (match s_env s with Some l => l | None => [] end);
+          OReply q])
+  end.
+
+Fixpoint srun (s : sstate) (cs : list scmd) : list (scmd * list sout) :=
+  match cs with
+  | [] => []
+  | c :: cs' => let '(s', o) := sstep s c in (c, o) :: srun s' cs'
+  end.
+
+(* What the CLIENT knows, from the commands it sent and the reply codes it read
+   only: is a transaction open, and which recipients were accepted (250 to
+   RCPT) since it began. *)
+Definition replies_of (o : list sout) : list N :=
+  flat_map (fun x => match x with OReply c => [c] | OHandoff _ => [] end) o.
+
+Definition view := (bool * list N)%type.        (* (transaction open, accepted recipients) *)
+
+Definition is1 (rs : list N) (c : N) : bool :=
+  match rs with [x] => x =? c | _ => false end.
+
+Definition view_step (w : view) (c : scmd) (rs : list N) : view :=
+  match c with
+  | SEhlo _ | SHelo _ | SRset => if is1 rs 250 then (false, []) else w
+  | SMail _ => if is1 rs 250 then (true, []) else w
+  | SRcpt a _ => if is1 rs 250 then (fst w, snd w ++ [a]) else w
+  | SData _ _ _ =>
+      match rs with
+      | x :: _ => if x =? 354 then (false, []) else w     (* the message went through the data phase *)
+      | [] => w
+      end
+  | SNoop => w
+  end.
+
+(* walks an observed session; collects, for every hand-off, (what the client
+   believes was accepted, what the envelope held) *)
+Fixpoint handoffs (w : view) (obs : list (scmd * list sout)) : list (list N * list N) :=
+  match obs with
+  | [] => []
+  | (c, o) :: obs' =>
+      flat_map (fun x => match x with OHandoff l => [(snd w, l)] | OReply _ => [] end) o
+      ++ handoffs (view_step w c (replies_of o)) obs'
+  end.
